@@ -5,6 +5,7 @@
 lost=0; n=0
 for d in /verif/seeded/${1}*/; do
   name=$(basename $d); [ -f $d/patch.diff ] || continue
+  if grep -q '"superseded"' $d/meta.json; then echo "$name: superseded by a later fix in /repo, skipped"; continue; fi
   wt=$(mktemp -d /tmp/seedsweep-XXXX); git -C /repo archive HEAD | tar -x -C $wt
   if ! (cd $wt && git apply --unsafe-paths -p1 $d/patch.diff 2>/dev/null || patch -s -p1 < $d/patch.diff >/dev/null 2>&1); then echo "$name: PATCH DOES NOT APPLY"; lost=1; rm -rf $wt; continue; fi
   props=$(python3 -c "import json,sys; print(' '.join(c['property'] for c in json.load(open('$d/meta.json'))['checks'] if c['rc']==1))")
